@@ -72,29 +72,44 @@ Definition susc_terms (tolR : K) (l : list (K * (K * (K * K)))) : list (K * K) :
     if ltb (kabs P) tolR then [] else
       let R := ab * (wn - wm) in if ltb 0 (kabs R) then [(P, R)] else []) l.
 
-(** the documented approximation "energy differences below ReduceResonanceTolerance are zero": what it costs *)
+(** the documented approximation "energy differences below ReduceResonanceTolerance are zero": what it costs.
+    Exact term: ab (w_m - w_n)/(z - P) with w_m = w_n e^{-beta P}; the library uses [z ~ 0] beta ab w_n.
+    With x = beta |P|:  |w_m - w_n| <= w_n x e^x  and  |beta w_n - (w_n - w_m)/P| <= beta w_n (x/2) e^x.
+    (Written with w_n only: forming w_m - w_n from two rounded weights is meaningless when P is rounding noise.) *)
 Definition resonance_bound (beta tolR : K) (l : list (K * (K * (K * K)))) (z : K) (z_is_zero : bool) : K :=
   ksum l (fun t =>
-    let P := fst t in let ab := fst (snd t) in let wn := fst (snd (snd t)) in let wm := snd (snd (snd t)) in
+    let P := fst t in let ab := fst (snd t) in let wn := fst (snd (snd t)) in
     if ltb (kabs P) tolR then
-      (if ltb 0 (kabs P) then
-         (if z_is_zero then kabs (beta * ab * wn - ab * (wm - wn) / (0 - P))
-          else kabs (ab * (wm - wn) / (z - P)))
-       else 0)
+      let x := beta * kabs P in
+      let ex := nexp K NO x in
+      (if z_is_zero then kabs ab * wn * beta * (x / (n1 K NO + n1 K NO)) * ex
+       else kabs ab * wn * x * ex / kabs (z - P))
     else 0).
 
 (** imaginary time (susceptibility; terms with |P| >= tolR): a term is R e^{-tau P}/(1 - e^{-beta P}), 0 <= tau <= beta;
     sup over tau of e^{-tau P} is max(1, e^{-beta P}) *)
 Definition tau_weight (beta P : K) : K :=
-  let e := nexp K NO (nopp K NO (beta * P)) in
-  (if ltb (n1 K NO) e then e else n1 K NO) / kabs (n1 K NO - e).
+  (* max(1, e^{-beta P}) / |1 - e^{-beta P}| = 1 / (1 - e^{-beta |P|}) for either sign of P; written so that nothing overflows *)
+  n1 K NO / (n1 K NO - nexp K NO (nopp K NO (beta * kabs P))).
 Definition tau_dropped_bound (beta tolM : K) (terms : list (K * K)) : K :=
   ksum terms (fun t => if ltb tolM (kabs (snd t)) then 0 else kabs (snd t) * tau_weight beta (fst t)).
-(** a pole moved by d changes the term by at most |R| d beta (1 + 1/|1 - e^{-beta P}|) times that weight (crude) *)
+(** a pole moved by d changes the term by at most |R| d beta (1 + weight) times that weight (crude) *)
 Definition tau_merge_bound (beta : K) (wd : list (K * K * K)) : K :=
   ksum wd (fun t =>
     let P := fst (fst t) in let R := snd (fst t) in let d := snd t in
-    let e := nexp K NO (nopp K NO (beta * P)) in
-    kabs R * d * beta * tau_weight beta P * (n1 K NO + n1 K NO / kabs (n1 K NO - e))).
+    kabs R * d * beta * tau_weight beta P * (n1 K NO + tau_weight beta P)).
+
+(** <A(tau) B(0)> = sum_{nm} w_n A_nm B_mn e^{tau (E_n - E_m)} (EDSpec.susc_tau) with the exponents combined,
+    w_n e^{tau (E_n - E_m)} = e^{-((beta - tau)(E_n - E_0) + tau (E_m - E_0))} / Z, so that for 0 <= tau <= beta every exponent
+    is <= 0 and nothing overflows at large beta (binary64 evaluation of EDSpec.susc_tau gives inf * 0 there) *)
+Definition susc_tau_safe (beta : K) (E : list K) (A B : list (list K)) (tau : K) : K :=
+  let e0 := min_re K NO E in
+  let Z := ksum E (fun e => nexp K NO (nopp K NO (beta * (e - e0)))) in
+  ksum (idx A) (fun nr =>
+    let n := fst nr in
+    ksum (idx (snd nr)) (fun mc =>
+      let m := fst mc in
+      snd mc * mget B m n *
+      nexp K NO (nopp K NO ((beta - tau) * (nth n E 0 - e0) + tau * (nth m E 0 - e0))) / Z)).
 
 End Trunc.
